@@ -110,6 +110,11 @@ def canonical_action(t: T, action: T) -> T:
         t = strip_cast(t.args[1][0])
         while t.kind in ("batched", "copy"):
             t = strip_cast(t.args[0])
+    # X.at[<constant index>].set(Y): a single documented special entry (CVRP's depot); the general entries are X
+    while t.kind == "call" and t.args[0].kind == "attr" and t.args[0].args[1] == "set" and t.args[0].args[0].kind == "index" \
+            and t.args[0].args[0].args[0].kind == "attr" and t.args[0].args[0].args[0].args[1] == "at" \
+            and strip_cast(t.args[0].args[0].args[1]).kind == "const" and len(t.args[1]) == 1:
+        t = strip_cast(t.args[0].args[0].args[0].args[0])
     mapping: Dict[int, T] = {}
     for n in deps(t):
         if n.kind == "elem":
